@@ -346,3 +346,5 @@ def run(chk, facts, tier):
     # the API's views of a response (bucket accessors, lookups) are thin wrappers: none is wired to a sibling's target
     from rules import C19 as _c19
     _c19.sibling_delegates(chk, facts)
+    from rules import shared_getters
+    shared_getters.check(chk, facts, "C14.GETTER", ["cedar_policy_core::tpe::", "cedar_policy::api::tpe::"], 15)
